@@ -483,6 +483,17 @@ class Models:
     def construct(self, ex, cv, args, kwargs, lineno):
         return self._plug("construct", ex, cv, args, kwargs, lineno)
 
+    def call_opaque(self, ex, fv, args, kwargs, lineno):
+        return self._plug("call_opaque", ex, fv, args, kwargs, lineno)
+
+    def builtin_constant(self, ex, name):
+        r = self._plug("builtin_constant", ex, name)
+        if r is not NotImplemented:
+            return r
+        if name == "sys.float_info.epsilon":
+            return 2.220446049250313e-16
+        return NotImplemented
+
     def call_repo_model(self, ex, fi, args, kwargs, lineno):
         return self._plug("call_repo_model", ex, fi, args, kwargs, lineno)
 
@@ -913,6 +924,8 @@ class Models:
             st.assume(z3.ForAll([k], z3.Implies(mem[k], z3.Exists([i], z3.And(0 <= i, i < ro.n, ro.elems[i] == k)))))
             ex.assumed.add("model:sorted(permutation only)")
             return res
+        if name in ("min", "max", "abs") and args and all(isinstance(a, (int, float)) for a in args):
+            return {"min": min, "max": max, "abs": abs}[name](*args)
         if name in ("min", "max") and len(args) >= 2 and all(ex.num(a) is not None for a in args):
             nums = [ex.num(a) for a in args]
             real = any(s == TReal for _, s in nums)
